@@ -199,10 +199,10 @@ void build_object(osmium::memory::Buffer& buf, const Obj& o) {
 }
 
 // PBF through the library's own Writer (run before any exploration, on real threads): one block per call
-void write_pbf(const std::string& path, const std::vector<Obj>& d, bool dense) {
+void write_pbf(const std::string& path, const std::vector<Obj>& d, bool dense, const char* compression = "none") {
     osmium::io::File f{path, "pbf"};
     f.set("pbf_dense_nodes", dense);
-    f.set("pbf_compression", "none");
+    f.set("pbf_compression", compression);
     osmium::io::Writer w{f, osmium::io::overwrite::allow};
     for (size_t i = 0; i < d.size(); i += 2) {
         osmium::memory::Buffer buf{4096, osmium::memory::Buffer::auto_grow::yes};
